@@ -91,9 +91,9 @@ func buildTwo(name string, c *twoCounts, stepFail, hookFail int, pause, timeout 
 }
 
 func runTwoWF(kind string, a []string) string {
-	r, timedOut := runTwoWFOnce(a, 6*time.Second)
+	r, timedOut := runTwoWFOnce(a, 4*time.Second)
 	if timedOut {
-		r, _ = runTwoWFOnce(a, 40*time.Second)
+		r, _ = runTwoWFOnce(a, 15*time.Second)
 	}
 	return r
 }
@@ -199,6 +199,6 @@ func genTwoWF(p *params, emit func(string, bool)) {
 }
 
 func init() {
-	families["twowf"] = &family{gen: genTwoWF, run: runTwoWF, workers: 2,
+	families["twowf"] = &family{gen: genTwoWF, run: runTwoWF, workers: 4,
 		rule: "twowf: two workflows of different names and the same shape (failing step, step or timeout, pause + resume, OnPause / OnComplete hooks failing their first k calls) on ONE in-memory streamer, record store, role scheduler and timeout store with real goroutines; 1..4 runs each; every run must complete and every hook run to success, as for one workflow alone"}
 }
